@@ -46,6 +46,8 @@ func (f *flowSpec) Cond(x *gea.Exec, st *gea.State, e ast.Expr, env *gea.Env) ([
 	if call, ok := e.(*ast.CallExpr); ok {
 		if fn := x.P.Callee(call); fn != nil && fn.Pkg() == x.P.Types {
 			if a, ok := namedAtoms[core.QualName(fn)]; ok && !f.noNamed {
+				// the sampling of the flag is itself an (ordered) effect
+				st = x.Effect(st, "CHECK:"+a, call.Pos(), nil)
 				return x.Atom(st, a), true
 			}
 		}
